@@ -637,7 +637,7 @@ class MySQLParser(SQLParser):
         if hasattr(p, 'identifier'):
             entity.alias = p.identifier
         if hasattr(p, 'dquote_string'):
-            entity.alias = Identifier(p.dquote_string)
+            entity.alias = Identifier(parts=[p.dquote_string] if p.dquote_string else None)  # one name, whatever it contains
         return entity
 
     @_('LPAREN query RPAREN')
@@ -701,7 +701,7 @@ class MySQLParser(SQLParser):
         if col.alias:
             raise ParsingException(f'Attempt to provide two aliases for {str(col)}')
         if hasattr(p, 'dquote_string'):
-            alias = Identifier(p.dquote_string)
+            alias = Identifier(parts=[p.dquote_string] if p.dquote_string else None)  # one name, whatever it contains
         else:
             alias = p.identifier
         col.alias = alias
